@@ -25,3 +25,6 @@ func verifPool(ev byte, pix []byte, n int, p *bitmapPool) {
 	}
 	VerifPoolHook(ev, id, n, p.live, p.peak)
 }
+
+// verifPoolOn tells whether the pool hook is compiled in.
+const verifPoolOn = true
